@@ -865,15 +865,24 @@ func (x *c13) findDispatch() {
 	// contains the comparison of all amlNameLen name bytes
 	upward, cmpAll := false, false
 	var cmpNodes []int
-	for _, f := range g.AllEdgeFacts() {
-		if f.Y == nil || f.Op != token.LSS {
-			continue
-		}
-		k, ok := constUint64(f.Y)
-		_, isPhi := f.X.(*ssa.Phi)
-		if ok && k == nameLen && isPhi {
-			cmpAll = true
-			cmpNodes = append(cmpNodes, f.Edge.From)
+	// a loop that runs amlNameLen times (however it counts: i < amlNameLen, range
+	// over the name array)
+	seenH := map[*ssa.BasicBlock]bool{}
+	for _, fn2 := range g.Funcs {
+		for _, b := range fn2.Blocks {
+			h, _ := loopOf(b)
+			if h == nil || seenH[h] {
+				continue
+			}
+			seenH[h] = true
+			zl := &Polyizer{}
+			if lf, ok := g.loopFormAt(zl, h); ok {
+				if k, isK := lf.Trips.isConst(); lf.TripsOK && isK && uint64(k) == nameLen && lf.Exit >= 0 {
+					cmpAll = true
+					cmpNodes = append(cmpNodes, lf.Exit)
+				}
+				lf.Done()
+			}
 		}
 	}
 	for _, in := range g.Ins {
